@@ -17,7 +17,8 @@ LEVEL = "exploration"
 RULE = (
     "Hypothesis draws definitions from the sharing-pool generator (2..3 shared sub-trees, later ones may contain earlier "
     "ones, spliced into several state updates and sensor readings) so that sympy.cse must emit chained temporaries. "
-    "(a) Python: model values, process/control/sensor Jacobians, one prediction and one update with CSE on vs off must "
+    "(a0) plain compiled Python models as in C01 (incl. user-defined functions supplied through Config.python_modules and shared by "
+    "two outputs): CSE on vs off vs reference; (a) Python filters: model values, process/control/sensor Jacobians, one prediction and one update with CSE on vs off must "
     "agree (2e-9*abs-scale) and match the mpmath reference; (b) C++: the same definition generated with CSE on and off, "
     "both compiled and run on the same inputs, every printed entry compared (1e-7 relative to max(1,|a|,|b|)), CSE-on "
     "outputs also against the reference; (c) text-level SSA predicate over every function body of the CSE-on source: "
@@ -234,6 +235,8 @@ def cpp_part(spec, ctx):
 
 def case(spec, ctx):
     ctxmod.import_formak()
+    if "points" in spec and "layer" not in spec:  # a plain-model case (replay of the py-model phase)
+        return model_case(spec, ctx)
     m = spec["model"]
     n_sym, nested_sym = models.cse_stats(m)
     if spec["layer"] == "python":
@@ -258,6 +261,17 @@ def case(spec, ctx):
                     "temporaries": nt})
 
 
+def model_case(spec, ctx):
+    """plain compiled models (no Jacobians): wider definitions than the filter layer admits, e.g. user-defined functions
+    supplied through Config.python_modules, string-form updates, proactive_simplify; CSE on vs off and vs the reference"""
+    from props import c01
+
+    c01.case(spec, ctx)
+
+
 def shard(ctx):
-    ctx.run_given(cases(cpp=False), case, label="py", share=0.5)
+    from props import c01
+
+    ctx.run_given(c01.cases(), model_case, examples=max(4, ctx.examples // 2), label="py-model", share=0.2)
+    ctx.run_given(cases(cpp=False), case, label="py", share=0.4)
     ctx.run_given(cases(cpp=True), case, examples=ctx.budget["cpp_examples"], label="cpp")
